@@ -488,6 +488,24 @@ def check_c12(pid, tier, seed, rep):
             if not f.endswith("_band.go"):
                 continue
             aliases = [im["name"] for im in rec["imports"] if im["name"]]
+            # identifiers the import declarations put into the file scope: the explicit name, else the package's own name
+            def pkg_name_of(path):
+                for root in (N["srcdir"], S["srcdir"]):
+                    pd = os.path.join(root, path[len("vscratch/"):]) if path.startswith("vscratch/") else None
+                    if pd and os.path.isdir(pd):
+                        for gf in sorted(os.listdir(pd)):
+                            if gf.endswith(".go"):
+                                m = re.search(r"^package\s+(\w+)", open(os.path.join(pd, gf)).read(), re.M)
+                                if m:
+                                    return m.group(1)
+                return path.rsplit("/", 1)[-1]
+            scope_names = [im["name"] or pkg_name_of(im["path"]) for im in rec["imports"] if im["name"] not in ("_", ".")]
+            twice = sorted({x for x in scope_names if scope_names.count(x) > 1})
+            if twice and nviol < 4:
+                nviol += 1
+                rep.violation("e2e-%s-imports" % os.path.basename(d), dict(package_dir=d, file=f, imports=rec["imports"], problems=["import name(s) %s declared twice in the file scope" % twice],
+                                                                          how="cd <package_dir> && kessoku k.go; read the import block of the generated file"),
+                              "%s %s: two imports share the name %s" % (os.path.basename(d), os.path.basename(f), twice[0]))
             for fn in rec["funcs"]:
                 names = [p["name"] for p in fn["params"]] + [v["name"] for v in fn["vars"]]
                 for th in fn["threads"]:
